@@ -285,8 +285,9 @@ def go (cfg : Cfg) : Nat → Lbl → St → St
         { st with s := Stream.maybeListen { st.s with hasCb := true }, pc := .awaitFinish }
       else
         let st := st.finallyRM
-        -- return True; await asyncio.sleep(0); next iteration
-        go cfg fuel .loopTop { st with cur := st.cur + 1 }
+        -- return True; `if self.stream.closed(): return`; await asyncio.sleep(0); next iteration
+        if st.s.closed then go cfg fuel .exit st
+        else go cfg fuel .loopTop { st with cur := st.cur + 1 }
     | .err400 =>
       -- except HTTPInputError: await stream.write(400); self.close(); return False  (+ finally)
       if st.s.closed then go cfg fuel .exit st.finallyRM       -- stream.write raises StreamClosedError
